@@ -178,6 +178,33 @@ func randFault(r *RNG, h *hist, kind string, npk, ntx int) (fault, attemptOpts) 
 			if at < 2 {
 				at = 2
 			}
+			if r.Chance(1, 2) {
+				// a TABLE_MAP for an id the attempt already knows, well framed but cut inside its body, placed after
+				// the original (the refresh of a cached table map must not swallow the decode failure)
+				if ans, err := theDriver.Ask(h.line(posStr(firstFile, 4))); err == nil {
+					pks := splitPackets(fields(ans)["packets"])
+					var tms []int
+					for i, pk := range pks {
+						if len(pk) > 19+12 && pk[4] == 19 {
+							tms = append(tms, i)
+						}
+					}
+					if len(tms) > 0 {
+						i := tms[r.Intn(len(tms))]
+						src := pks[i]
+						crc := 0
+						if h.cfg[0] == '1' {
+							crc = 4
+						}
+						keep := 19 + 8 + r.Intn(len(src)-19-8-crc)
+						cand = append(append([]byte(nil), src[:keep]...), make([]byte, crc)...)
+						l := len(cand)
+						cand[9], cand[10], cand[11], cand[12] = byte(l), byte(l>>8), byte(l>>16), byte(l>>24)
+						at = i + 1 + r.Intn(len(pks)-i)
+						f.at = at
+					}
+				}
+			}
 			if ans, err := theDriver.Ask(h.line(posStr(firstFile, 4), fmt.Sprintf("inject=%d:%s", at, hx(cand)))); err == nil {
 				if m := fields(ans)["model"]; strings.HasPrefix(m, "err@") {
 					f.extra = cand
@@ -625,9 +652,19 @@ func extraC07(col *Collector, r *RNG, tier string) {
 				}
 				return append(pre, action{kind: "eof"})
 			}
+			// some attempts die before a dump exists (refused, handshake error, checksum query rejected): they must
+			// leave the stored position alone, and the next attempt must still ask for it
+			refused := a < attempts-1 && r.Chance(1, 4)
+			if refused {
+				opts.refuse = r.Pickstr("close-on-accept", "handshake-err", "query-err")
+			}
 			res := runAttemptCustom(s, m, h, mp, opts, streamMuUnlockedOnDump)
 			seen = append(seen, fmt.Sprintf("queries=%q dumps=%d", res.queries, len(res.dumps)))
 			switch {
+			case refused:
+				if len(res.dumps) != 0 {
+					ok, key, note = false, "dump-count", fmt.Sprintf("attempt %d (%s) sent %d dump requests", a, opts.refuse, len(res.dumps))
+				}
 			case len(res.queries) != 1 || res.queries[0] != want:
 				ok, key, note = false, "checksum-announcement", fmt.Sprintf("attempt %d: COM_QUERY packets %q, want exactly [%q]", a, res.queries, want)
 			case len(res.otherCmds) != 0:
@@ -686,44 +723,75 @@ func aliasHistory(r *RNG, cfg string, blobLen int) *hist {
 	}
 	h.tables = []*hTable{t}
 	ts := uint32(1600000000)
+	// every formatted (non-string) column holds ONE value in all rows of the history: its zero, or — half of the
+	// time — one non-zero value chosen once (a decoder that caches / shares its last rendering shows up only then)
+	zeroOf := func(c hCol) string {
+		switch {
+		case c.typ == 7:
+			return "ts:0"
+		case c.typ == 17 && c.md == 0:
+			return "ts2:0:0"
+		case c.typ == 13:
+			return "y:0"
+		case c.typ == 10:
+			return "d:0:0:0"
+		case c.typ == 11:
+			return "t:0:0:0:0"
+		case c.typ == 12:
+			return "dt:0:0:0:0:0:0"
+		case c.typ == 19:
+			return "t2:0:0:0:0:0"
+		case c.typ == 18:
+			return "dt2:0:0:0:0:0:0:0"
+		case c.typ == 1:
+			return "i:1:0"
+		case c.typ == 8:
+			return "i:8:0"
+		case c.typ == 246 && c.md == 5<<8:
+			return "dec:0:00000:"
+		case c.typ == 254 && c.md == 247<<8|1:
+			return "en:1:0"
+		case c.typ == 254 && c.md == 248<<8|2:
+			return "set:2:0"
+		case c.typ == 4:
+			h.ext["f32"] = append(h.ext["f32"], strings.TrimPrefix(f32ext(0), "f32="))
+			return "f32:0"
+		case c.typ == 5:
+			h.ext["f64"] = append(h.ext["f64"], strings.TrimPrefix(f64ext(0), "f64="))
+			return "f64:0"
+		}
+		return ""
+	}
+	fixed := make([]string, len(t.cols))
+	sameSec := uint32(0) // all TIMESTAMP columns of the history show the same second (in half of the histories)
+	if r.Bool() {
+		sameSec = 1 + uint32(r.U64()%4000000000)
+		e := strings.Split(tzext(sameSec), " ")
+		h.ext["tz"] = append(h.ext["tz"], strings.TrimPrefix(e[0], "tz="))
+		h.ext["civil"] = append(h.ext["civil"], strings.TrimPrefix(e[1], "civil="))
+	}
+	for i, c := range t.cols {
+		if z := zeroOf(c); z != "" || c.typ == 17 || c.typ == 3 || c.typ == 246 {
+			fixed[i] = z
+			if z == "" || r.Bool() {
+				fixed[i] = fixInt(randValue(r, colKind{c.typ, c.md}, h.ext), c)
+			}
+			if sameSec != 0 && c.typ == 7 {
+				fixed[i] = fmt.Sprintf("ts:%d", sameSec)
+			}
+			if sameSec != 0 && c.typ == 17 {
+				fixed[i] = fmt.Sprintf("ts2:%d:%d", sameSec, r.Intn([]int{1, 10, 100, 1000, 10000, 100000, 1000000}[c.md]))
+			}
+		}
+	}
 	mkrow := func(blob int) []string {
 		var vs []string
-		for _, c := range t.cols {
+		for i, c := range t.cols {
 			switch {
 			case c.typ == 252:
 				vs = append(vs, "s:"+hx(r.Bytes(blob)))
-			case c.typ == 7:
-				vs = append(vs, "ts:0")
-			case c.typ == 17 && c.md == 0:
-				vs = append(vs, "ts2:0:0")
-			case c.typ == 13:
-				vs = append(vs, "y:0")
-			case c.typ == 10:
-				vs = append(vs, "d:0:0:0")
-			case c.typ == 11:
-				vs = append(vs, "t:0:0:0:0")
-			case c.typ == 12:
-				vs = append(vs, "dt:0:0:0:0:0:0")
-			case c.typ == 19:
-				vs = append(vs, "t2:0:0:0:0:0")
-			case c.typ == 18:
-				vs = append(vs, "dt2:0:0:0:0:0:0:0")
-			case c.typ == 1:
-				vs = append(vs, "i:1:0")
-			case c.typ == 8:
-				vs = append(vs, "i:8:0")
-			case c.typ == 246 && c.md == 5<<8:
-				vs = append(vs, "dec:0:00000:")
-			case c.typ == 254 && c.md == 247<<8|1:
-				vs = append(vs, "en:1:0")
-			case c.typ == 254 && c.md == 248<<8|2:
-				vs = append(vs, "set:2:0")
-			case c.typ == 4:
-				h.ext["f32"] = append(h.ext["f32"], strings.TrimPrefix(f32ext(0), "f32="))
-				vs = append(vs, "f32:0")
-			case c.typ == 5:
-				h.ext["f64"] = append(h.ext["f64"], strings.TrimPrefix(f64ext(0), "f64="))
-				vs = append(vs, "f64:0")
+			case fixed[i] != "":
+				vs = append(vs, fixed[i])
 			default:
 				vs = append(vs, fixInt(randValue(r, colKind{c.typ, c.md}, h.ext), c))
 			}
